@@ -158,4 +158,125 @@ Proof.
     + cbn [eg_state s_p]. symmetry. apply (v_src_ia _ _ _ _ _ _ _ _ V).
 Qed.
 
+Lemma dst_not_local q k ki mid : View q k ki mid -> (S k < n)%nat -> (p_dst_ia q =? ia p k)%N = false.
+Proof.
+  intros V Hk. rewrite (v_dst_ia _ _ _ _ _ _ _ _ V).
+  pose proof Hep as Hep'. unfold endpoints_ok in Hep'.
+  apply andb_true_iff in Hep' as [E _]. apply andb_true_iff in E as [E _].
+  apply andb_true_iff in E as [_ Ed]. apply N.eqb_eq in Ed. rewrite Ed.
+  apply N.eqb_neq. intros X. apply (ia_not_dst _ _ _ HG k Hk). now symmetry.
+Qed.
+
+(** the state of the egress router of an AS after its ingress half *)
+Lemma mid_state q k k0 :
+  View q k k true -> (S k < n)%nat -> crosses p k = true ->
+  ForwardStep.entry p k = k0 -> (1 <= k0)%nat -> crosses p (k0 - 1) = true -> asof k0 = asof k ->
+  in_rtr k0 <> eg_rtr k ->
+  let c := cfg_of (asof k) (eg_rtr k) in
+  let ing := InSib (in_rtr k0 + 1) in
+  let s1 := mkSt q (rhop (hop p k)) (rinfo p k true (js k)) (peerhop p k) false 0 in
+  q = render p pp k true /\
+  ingress_pre (macq (a_key (asof k))) c now ing q = Ok s1 /\
+  egress_pre (macq (a_key (asof k))) c now ing s1 = Ok (eg_state k false) /\
+  egress_if c (eg_state k false) = if_of (eg_rtr k) (nifof k (tr_eg p k)).
+Proof.
+  intros V Hk C He K0 C0 As0 Hne c ing s1. assert (Hk' : (k < n)%nat) by lia.
+  destruct (as_of_ok _ _ _ HG k Hk') as [Ak Ik].
+  pose proof (view_full p pp Hs q k true V) as Eq.
+  pose proof (ingress_mid mac t now p pp HG Hep Hexp c q k k0 (eg_rtr k) V Hk C He K0 C0 As0 Hne Ik eq_refl) as Ein.
+  apply ingress_pre_of_part in Ein.
+  split; [exact Eq|]. split; [exact Ein|].
+  pose proof (view_meta p pp _ _ _ _ _ _ true V) as M.
+  assert (Ex : xover_part (macq (a_key (asof k))) now s1 = Ok (stop_state p pp k false)).
+  { rewrite xover_part_skip.
+    - unfold s1, stop_state. now rewrite Eq.
+    - cbn [s1 s_p s_peer]. rewrite (is_xover_meta _ _ M), (is_xover_render p pp Hs k true Hk').
+      replace (Nat.eqb (S k) n) with false by (symmetry; apply Nat.eqb_neq; lia). cbn [negb andb].
+      destruct (is_last p k) eqn:L; [|reflexivity]. now rewrite (peer_exit mac t p HG k Hk C L). }
+  apply (egress_pre_state c ing s1 k false (eg_rtr k) Ex Hk C eq_refl).
+  cbn [ing from0 ing_ifid N.eqb]. apply veg_int. reflexivity.
+Qed.
+
+(** ** the egress router-alert flag: the egress router got the packet from its sibling *)
+Theorem egress_flag_answer_sibling q k k0 a e :
+  View q k k true -> (S k < n)%nat -> crosses p k = true ->
+  ForwardStep.entry p k = k0 -> (1 <= k0)%nat -> crosses p (k0 - 1) = true -> asof k0 = asof k ->
+  in_rtr k0 <> eg_rtr k ->
+  eg_flag k a e = true -> in_flag k a e = false ->
+  process_scion (macq (a_key (asof k))) (cfg_of (asof k) (eg_rtr k)) now (InSib (in_rtr k0 + 1))
+                (ScmpReturn.set_alerts k a e q) =
+  SlowPath SpAlertEgress (tr_eg p k) (render p pp k true).
+Proof.
+  intros V Hk C He K0 C0 As0 Hne Fe Fi. assert (Hk' : (k < n)%nat) by lia.
+  destruct (mid_state q k k0 V Hk C He K0 C0 As0 Hne) as (Eq & E1 & E2 & Eif).
+  destruct (as_of_ok _ _ _ HG k Hk') as [Ak Ik].
+  rewrite <- (phi_flag k a e q).
+  set (s1 := mkSt q (rhop (hop p k)) (rinfo p k true (js k)) (peerhop p k) false 0) in *.
+  apply (proc_egress_answer _ _ now _ k a e (p_src_ia q) (keeps_gflag k a e) q s1 (eg_state k false)).
+  - apply (src_ok_view q k k true _ _ V Hk').
+  - exact E1.
+  - apply (ingress_quiet _ k a e (p_src_ia q) s1); [apply plain_rhop|]. now left.
+  - cbn [cfg_of c_ia]. rewrite Ik. apply (dst_not_local q k k true V Hk).
+  - exact E2.
+  - apply (egress_answer _ k a e (p_src_ia q) (eg_state k false) (rhop (hop p k))).
+    + rewrite Eif. unfold if_of. fold (eg_rtr k). rewrite N.eqb_refl. reflexivity.
+    + cbn [eg_state s_p]. change (p_curr_hf (render p pp k true)) with (N.of_nat k). apply Nat2N.id.
+    + cbn [eg_state s_inf]. rewrite (rinfo_consdir p k k true). exact Fe.
+    + cbn [eg_state s_inf]. rewrite (rinfo_consdir p k k true). exact Fi.
+    + reflexivity.
+    + apply plain_rhop.
+    + cbn [eg_state s_p]. rewrite <- nthN_of_nat. apply (hop_render p pp k true k). lia.
+    + cbn [eg_state s_p]. symmetry. apply (v_src_ia _ _ _ _ _ _ _ _ V).
+Qed.
+
+(** ** no handler reacts: the router forwards as it does without the flag, flag untouched *)
+Theorem flag_forward q k ing r kx a e :
+  View q k k false -> (S k < n)%nat -> arrives k ing -> (k = 0%nat -> r = eg_rtr (eff k)) ->
+  (k <> kx \/ in_flag k a e = false \/ ing = InInt) ->
+  (eff k <> kx \/ eg_flag (eff k) a e = false \/ eg_rtr (eff k) <> r) ->
+  process_scion (macq (a_key (asof k))) (cfg_of (asof k) r) now ing (ScmpReturn.set_alerts kx a e q) =
+  phi_res (p_src_ia q) (gflag kx a e) (process_scion (macq (a_key (asof k))) (cfg_of (asof k) r) now ing q).
+Proof.
+  intros V Hk Ha H0 Qi Qe. assert (Hk' : (k < n)%nat) by lia.
+  destruct (arrive_state mac t now p pp HG Hep Hexp q k ing r V Hk Ha H0)
+    as (s1' & xo & Ein' & S1 & Dst & Ex & As & Hn & C & Hv).
+  destruct (ingress_arrive mac t now p pp HG Hep Hexp n nsegs q k ing r V Hk' Hk'
+              (js_lt p Hs k Hk') Ha) as (q1 & Ein & V1 & _).
+  rewrite Ein in Ein'. injection Ein' as <-.
+  set (s1 := mkSt q1 (rhop (hop p k)) (rinfo p k true (js k)) (peerhop p k) false 0) in *.
+  apply ingress_pre_of_part in Ein.
+  set (kc := eff k) in *. set (c := cfg_of (asof k) r).
+  rewrite <- As in Ex.
+  destruct (egress_pre_state c ing s1 kc xo r Ex Hn C ltac:(unfold c; now rewrite As) Hv) as [E2 Eif].
+  rewrite As in E2.
+  rewrite <- (phi_flag kx a e q).
+  destruct (ingress_quiet ing kx a e (p_src_ia q) s1 (plain_rhop _)) as [I1 I2].
+  { cbn [s1 s_p s_inf]. rewrite (v_ch _ _ _ _ _ _ _ _ V1), Nat2N.id, (rinfo_consdir p k k true).
+    destruct Qi as [Q|[Q|Q]]; [right; now left|right; now right|left].
+    subst ing. reflexivity. }
+  destruct (egress_quiet c kx a e (p_src_ia q) (eg_state kc xo) (plain_rhop _)) as [G1 G2].
+  { rewrite Eif. cbn [eg_state s_p s_inf]. change (p_curr_hf (render p pp kc true)) with (N.of_nat kc).
+    rewrite Nat2N.id, (rinfo_consdir p kc kc true).
+    destruct Qe as [Q|[Q|Q]]; [right; now left|right; now right|left].
+    unfold if_of. fold (eg_rtr kc). apply N.eqb_neq in Q. now rewrite Q. }
+  apply (proc_quiet _ c now ing kx a e (p_src_ia q) (keeps_gflag kx a e) q s1 (eg_state kc xo)); try assumption.
+  - apply (src_ok_view q k k false r ing V Hk').
+  - unfold c. cbn [cfg_of c_ia]. exact Dst.
+Qed.
+
 End Trace.
+
+(** * What the answer says *)
+Lemma traceroute_content cmac c ing x ll ifid va ats r :
+  RouterScmp.traceroute cmac c ing x ll ifid va ats = RouterScmp.SReply r ->
+  exists t0 cd c1 c2 rest ck,
+    snd ll = t0 :: cd :: c1 :: c2 :: rest /\
+    RouterScmp.r_l4 r = [RouterScmp.ScmpTracerouteReply; 0%N] ++ be 2 ck ++
+                        (firstn 4 rest ++ be 8 (c_ia c) ++ be 8 ifid).
+Proof.
+  intros H. apply traceroute_inv in H as (t0 & cd & c1 & c2 & rest & E & H).
+  apply prepare_path in H as (rp & _ & B).
+  apply build_inv in B as (lt & lraw & ck & _ & _ & _ & _ & _ & _ & _ & _ & _ & L4 & _).
+  exists t0, cd, c1, c2, rest, ck. split; [exact E|]. rewrite L4. unfold reply_l4, reply_quote.
+  now rewrite app_nil_r.
+Qed.
